@@ -4,6 +4,7 @@ import (
 	"bytes"
 	"context"
 	"io"
+	"sync/atomic"
 
 	remoteexecution "github.com/bazelbuild/remote-apis/build/bazel/remote/execution/v2"
 	"github.com/buildbarn/bb-storage/pkg/blobstore"
@@ -53,13 +54,91 @@ type serveSpec struct {
 	failErr     error
 }
 
-// casServer is the CAS proper: presence and bytes come from a backends.Mem;
-// objects listed in streamed are handed out as reader-backed CAS buffers
-// (validated only when the stream ends), everything else as byte slices.
+// viaSpec says through which constructor of the real read-buffer factory
+// (blobstore.CASReadBufferFactory) one object is handed out.
+type viaSpec struct {
+	method string // "readerat", "reader" or "slice"
+	// sizeFromDigest: the size handed to NewBufferFromReaderAt is the one the
+	// digest states (a location record of a local store) instead of the
+	// number of bytes actually held (the entry size of a ZIP archive).
+	sizeFromDigest bool
+	// eofAtEnd: a ReadAt that ends exactly at the last stored byte returns
+	// (n, io.EOF) instead of (n, nil); io.ReaderAt allows both.
+	eofAtEnd bool
+}
+
+// countingReadAtCloser is random-access storage holding the bytes that are
+// stored for one object (which need not be the bytes the digest names). It
+// optionally fails every read that reaches byte FailAfter, and counts.
+type countingReadAtCloser struct {
+	Digest    digest.Digest
+	Data      []byte
+	FailAfter int // <0: never
+	FailErr   error
+	EOFAtEnd  bool
+
+	Closes atomic.Int32
+	Reads  atomic.Int32
+}
+
+func (r *countingReadAtCloser) ReadAt(p []byte, off int64) (int, error) {
+	r.Reads.Add(1)
+	if off < 0 {
+		return 0, status.Error(codes.InvalidArgument, "harness: negative offset")
+	}
+	end := int64(len(r.Data))
+	if r.FailAfter >= 0 && int64(r.FailAfter) < end+1 {
+		if off >= int64(r.FailAfter) {
+			return 0, r.FailErr
+		}
+		if off+int64(len(p)) > int64(r.FailAfter) {
+			return copy(p, r.Data[off:r.FailAfter]), r.FailErr
+		}
+	}
+	if off >= end {
+		return 0, io.EOF
+	}
+	n := copy(p, r.Data[off:])
+	if n < len(p) || (r.EOFAtEnd && off+int64(n) == end) {
+		return n, io.EOF
+	}
+	return n, nil
+}
+
+func (r *countingReadAtCloser) Close() error {
+	r.Closes.Add(1)
+	return nil
+}
+
+// casServer is the CAS proper: presence and bytes come from a backends.Mem.
+//
+// Without a factory, objects listed in streamed are handed out as
+// reader-backed CAS buffers (validated only when the stream ends), everything
+// else as byte slices, using the buffer constructors directly.
+//
+// With a factory (blobstore.CASReadBufferFactory), every object goes through
+// the real read-buffer factory, exactly as in a local (block device backed)
+// or ZIP backed CAS: the stored bytes sit in a ReadAtCloser, a ReadCloser or
+// a byte slice and the factory decides how they become a Buffer. The stored
+// bytes may differ from what the digest names.
 type casServer struct {
 	*backends.Mem
 	streamed map[digest.Digest]serveSpec
 	readers  []*hx.CountingReadCloser
+
+	factory   blobstore.ReadBufferFactory
+	via       map[digest.Digest]viaSpec
+	readerAts []*countingReadAtCloser
+	// answers given to the data integrity callback of the factory's buffers
+	integrityOK, integrityBad atomic.Int32
+}
+
+func (s *casServer) integrity(ok bool) {
+	if ok {
+		s.integrityOK.Add(1)
+	} else {
+		s.integrityBad.Add(1)
+	}
 }
 
 func (s *casServer) Get(ctx context.Context, d digest.Digest) buffer.Buffer {
@@ -67,9 +146,33 @@ func (s *casServer) Get(ctx context.Context, d digest.Digest) buffer.Buffer {
 	if !ok {
 		return buffer.NewBufferFromError(status.Errorf(codes.NotFound, "cas: object %s not found", d))
 	}
+	spec, isStreamed := s.streamed[d]
+	if s.factory != nil {
+		v := s.via[d]
+		switch v.method {
+		case "readerat":
+			ra := &countingReadAtCloser{Digest: d, Data: data, FailAfter: -1, EOFAtEnd: v.eofAtEnd}
+			if isStreamed && spec.failAfter >= 0 {
+				ra.FailAfter, ra.FailErr = spec.failAfter, spec.failErr
+			}
+			s.readerAts = append(s.readerAts, ra)
+			size := int64(len(data))
+			if v.sizeFromDigest {
+				size = d.GetSizeBytes()
+			}
+			return s.factory.NewBufferFromReaderAt(d, ra, size, s.integrity)
+		case "reader":
+			if !isStreamed {
+				spec = serveSpec{failAfter: -1}
+			}
+			r := &hx.CountingReadCloser{Data: data, Chunks: spec.chunks, EOFWithData: spec.eofWithData, FailAfter: spec.failAfter, FailErr: spec.failErr}
+			s.readers = append(s.readers, r)
+			return s.factory.NewBufferFromReader(d, r, s.integrity)
+		}
+		return s.factory.NewBufferFromByteSlice(d, data, s.integrity)
+	}
 	src := buffer.BackendProvided(quiet)
-	spec, ok := s.streamed[d]
-	if !ok {
+	if !isStreamed {
 		return buffer.NewCASBufferFromByteSlice(d, data, src)
 	}
 	r := &hx.CountingReadCloser{Data: data, Chunks: spec.chunks, EOFWithData: spec.eofWithData, FailAfter: spec.failAfter, FailErr: spec.failErr}
